@@ -396,6 +396,21 @@ class Layouts:
             raise Unknown(f"const `{' '.join(ast.unparse(node).split())[:60]}`: {ex}")
         if isinstance(v, LambdaVal):
             return self.const(v.node, Env(v.mod))
+        if isinstance(v, tuple) and len(v) == 2 and v[0] == "func" and isinstance(v[1], ast.FunctionDef) and isinstance(node, ast.Name):
+            # a named function used where a context lambda is expected: its canonical (E-AFF) form, like a lambda's
+            fn_ = v[1]
+            ps_ = [a.arg for a in fn_.args.args]
+            rets_ = [x for x in ast.walk(fn_) if isinstance(x, ast.Return)]
+            if ps_ and len(rets_) == 1 and rets_[0].value is not None:
+                p = this_path(rets_[0].value, {ps_[0]}) if len(fn_.body) == 1 else None
+                if p:
+                    return Sym(p)
+                try:
+                    txt = Describer(self).canon(node, env.mod)
+                except Exception:
+                    txt = None
+                if txt and not txt.startswith("func:"):
+                    return Sym("<" + txt + ">")
         return v
 
     # ------------------------------------------------------------ constructs
@@ -818,8 +833,9 @@ class Describer:
                     except AnalysisError:
                         pass
                 fake = ast.Call(func=node, args=[ast.Name(id="this" if i == 0 else "ctx", ctx=ast.Load()) for i in range(max(1, len(params) - len(fn.args.defaults)))], keywords=[])
-                ev = Evaluator(const_of=const_of, func_of=func_of, this_names=("this",))
-                t = inline_call(fn, fake, ev, lambda env: Evaluator(env=env, const_of=self.folder.const_of(r[2]), func_of=None, this_names=("this",)))
+                ev = Evaluator(const_of=const_of, func_of=func_of, this_names=("this",), fold=fold_sizeof)
+                t = inline_call(fn, fake, ev, lambda env: Evaluator(env=env, const_of=self.L.const_of(r[2]) if hasattr(self.L, "const_of") else self.folder.const_of(r[2]), func_of=None,
+                                                                    this_names=("this",), fold=fold_sizeof))
                 if t is not None:
                     return t.key()
                 return "func:" + node.id
